@@ -31,11 +31,12 @@ reg("C10",
     "Live.tla specifies the Live/Progress/Status display protocol (one operator per public call, the escape strings the design emits) on top of "
     "Screen.tla, a terminal screen model in TLA+.  TLC (M1) exhaustively checks every history of 5 (quick) / 7 (thorough) calls incl. a renderable "
     "that starts raising and restarts, for both renderers x transient, against ScreenOK / no-overwrite / cursor-in-region / Restored; (M2) emits "
-    "every 3..5-call history.  Those and seeded random histories (<= 40 calls incl. log, redirected stdout, task add/hide/show/remove, faults in the "
-    "renderable and in the body) run on the real classes; every byte written to the console file is tokenised and TLC itself replays it on "
+    "every 3..5-call history.  Those and seeded random histories (<= 40 calls incl. log, argument-less print()/log(), redirected stdout and stderr, "
+    "multi-row status texts and spinner changes, task add/hide/show/remove/relabel, faults in the renderable and in the body; display class x transient x "
+    "vertical_overflow x console height x terminal width x redirect options x frames whose rows are wider than the terminal) run on the real classes; every byte written to the console file is tokenised and TLC itself replays it on "
     "Screen.tla, comparing the screen, cursor visibility, hook depth and stdio restoration after every call (trace validation).  Bounded; conformance, not proof.",
-    "Trusted: engine/termlex.py (lexical tokeniser; text identified by per-line labels, unlabelled text ignored); unbounded scroll-back; blank rows "
-    "are not judged; auto_refresh off (timing is C11).",
+    "Trusted: engine/termlex.py (lexical tokeniser; text identified by per-line labels, unlabelled text counted as blanks); Screen.tla wraps text "
+    "written past the terminal's last column (auto-wrap terminal); unbounded scroll-back; blank rows are not judged; auto_refresh off (timing is C11).",
     "TLA+ specs Live.tla + Screen.tla; TLC exhaustive model check of the display protocol + TLC-generated histories replayed on real Live/Progress/Status + TLC replay of the emitted terminal stream (trace validation)",
     "DESIGN.md §4 C10")
 
@@ -70,8 +71,8 @@ reg("C11",
     "ConsoleConc.tla models a print and a refresh at the grain of the code's critical sections (hook phase under the live lock, frame render, write "
     "under the console lock); TLC checks all interleavings of a 2-thread program against the Screen.tla invariants and deadlock freedom for the intended "
     "design (atomic print) and reports that the faithful design violates the screen invariant (the stale-erase race, a recorded known finding).  Real "
-    "threads then run random programs (2-4 threads x 1-2 calls over print/log/capture/update+refresh/refresh/advance, with no display, a Live or a "
-    "Progress, optionally with the refresh thread) under the deterministic scheduler: DFS with pre-emption bound 2 over lock/write/event points, bound 1 "
+    "threads then run random programs (2-4 threads x 1-2 calls over print/log/capture/export/update+refresh/refresh/advance and, in a quarter of the "
+    "programs, stop/start of the display from worker threads, with no display, a Live or a Progress, optionally with the refresh thread) under the deterministic scheduler: DFS with pre-emption bound 2 over lock/write/event points, bound 1 "
     "over every executed line of console.py/live.py/live_render.py/progress.py, random and PCT schedules; every recorded execution (calls, hook phases, "
     "writes, recorded copy) is judged by TLC: each print reaches the file exactly once and contiguously, captures are isolated, record order equals file "
     "order, no deadlock, and TLC replays the writes on Screen.tla for the C10 screen invariant.  Bounded schedules, not all.",
